@@ -1,5 +1,29 @@
+//! C14, C15 (overlay / store equivalence), C17, C18 (state tree commitment and pruning), C19
+//! (crash consistency of the RocksDB+Merkle store). Shared workload engine: W-DB (`wdb.rs`);
+//! oracles: BTreeMap model (`wdb.rs`), from-scratch sparse-Merkle commitment and tree walker (`smt.rs`).
+mod c14;
+mod c15;
+mod c17;
+mod c18;
+mod c19;
+mod smt;
+mod tmpdir;
+mod wdb;
+
 fn main() {
     let args = rv_common::parse_args();
-    eprintln!("no check named {}", args.prop);
-    std::process::exit(2);
+    let code = match args.prop.as_str() {
+        "C14" => c14::run(&args),
+        "C15" => c15::run(&args),
+        "C17" => c17::run(&args),
+        "C18" => c18::run(&args),
+        "C19" => c19::run(&args),
+        // hidden: crash child of C19 (see c19.rs)
+        "__c19_child" => c19::child_main(&args.extra),
+        other => {
+            eprintln!("rv-store: no check named {other}");
+            2
+        }
+    };
+    std::process::exit(code);
 }
